@@ -114,6 +114,7 @@ func isNilConst(v ssa.Value) bool {
 }
 
 func (p *Program) classifyErr(e ssa.Value, call *ssa.Call, cats map[string]bool) {
+	var tolE []*ssa.BasicBlock
 	seen := map[ssa.Value]bool{}
 	var work []ssa.Value
 	push := func(v ssa.Value) {
@@ -167,7 +168,7 @@ func (p *Program) classifyErr(e ssa.Value, call *ssa.Call, cats map[string]bool)
 			case *ssa.BinOp:
 				used = true
 				if (x.Op == token.NEQ || x.Op == token.EQL) && (isNilConst(x.X) || isNilConst(x.Y)) {
-					p.classifyCheck(x, call, cats)
+					tolE = append(tolE, p.classifyCheck(x, call, cats)...)
 				} else {
 					// compared with a sentinel: a refinement, the nil test decides
 					cats["compared"] = true
@@ -192,6 +193,16 @@ func (p *Program) classifyErr(e ssa.Value, call *ssa.Call, cats map[string]bool)
 			default:
 				used = true
 			}
+		}
+	}
+	// a non-nil edge that flows on into the success continuation is harmless
+	// when all that can follow is handing this very error to the caller:
+	// `err := f(); if err != nil {cleanup}; return err`
+	for _, eb := range tolE {
+		if returnsOnly(eb, call.Block(), seen) {
+			cats["diverges"] = true
+		} else {
+			cats["tolerated"] = true
 		}
 	}
 	if !used {
@@ -241,7 +252,7 @@ func loadsAfter(st *ssa.Store, a *ssa.Alloc) []ssa.Value {
 
 // classifyCheck decides, for a comparison of the error with nil, whether the
 // non-nil edge diverges from the success continuation at every branch on it.
-func (p *Program) classifyCheck(cmp *ssa.BinOp, call *ssa.Call, cats map[string]bool) {
+func (p *Program) classifyCheck(cmp *ssa.BinOp, call *ssa.Call, cats map[string]bool) (tolerated []*ssa.BasicBlock) {
 	// collect the Ifs that branch on cmp (possibly negated)
 	type br struct {
 		ifi *ssa.If
@@ -272,7 +283,7 @@ func (p *Program) classifyCheck(cmp *ssa.BinOp, call *ssa.Call, cats map[string]
 	walk(cmp, false, 0)
 	if len(brs) == 0 {
 		cats["forwarded"] = true
-		return
+		return nil
 	}
 	for _, b := range brs {
 		errOnTrue := cmp.Op == token.NEQ
@@ -294,9 +305,59 @@ func (p *Program) classifyCheck(cmp *ssa.BinOp, call *ssa.Call, cats map[string]
 			cats["diverges"] = true
 			cats["sentinel"] = true
 		default:
-			cats["tolerated"] = true
+			tolerated = append(tolerated, E)
 		}
 	}
+	return tolerated
+}
+
+// returnsOnly: every path from block b (not entering avoid) ends in a return
+// that hands one of the values in flow to the caller, and performs no call,
+// store, send or map update on the way once it has left b's own straight-line
+// clean-up (b itself – the error branch – may log and release).
+func returnsOnly(b, avoid *ssa.BasicBlock, flow map[ssa.Value]bool) bool {
+	seen := map[*ssa.BasicBlock]bool{}
+	ok := true
+	any := false
+	var dfs func(x *ssa.BasicBlock, first bool)
+	dfs = func(x *ssa.BasicBlock, first bool) {
+		if !ok || x == avoid || seen[x] {
+			return
+		}
+		seen[x] = true
+		for _, in := range x.Instrs {
+			switch t := in.(type) {
+			case *ssa.Return:
+				hit := false
+				for _, r := range t.Results {
+					if flow[r] {
+						hit = true
+					}
+				}
+				if !hit {
+					ok = false
+				}
+				any = true
+			case ssa.CallInstruction:
+				if _, isDefer := in.(*ssa.RunDefers); !first && !isDefer {
+					ok = false
+				}
+			case *ssa.Store:
+				if _, isAlloc := t.Addr.(*ssa.Alloc); !first && !isAlloc {
+					ok = false
+				}
+			case *ssa.Send, *ssa.MapUpdate, *ssa.Go, *ssa.Defer:
+				if !first {
+					ok = false
+				}
+			}
+		}
+		for _, su := range x.Succs {
+			dfs(su, false)
+		}
+	}
+	dfs(b, true)
+	return ok && any
 }
 
 // sentinelDiverges: block e (entered on the non-nil edge) ends in a branch
